@@ -134,6 +134,12 @@ func (r *upcastRegistry) apply(data json.RawMessage, eventType string) (json.Raw
 				upcaster.FromType, upcaster.ToType, err)
 		}
 
+		// A raw upcaster may return a type other than its declared ToType; if
+		// that type was already processed the chain would never terminate.
+		if appliedTypes[newType] {
+			return data, eventType, fmt.Errorf("eventbus: upcast loop detected")
+		}
+
 		currentData = newData
 		currentType = newType
 	}
